@@ -77,6 +77,11 @@ type FuncExec struct {
 	capWrite []string
 	outOfSub string
 	ghostVar map[string]string // ghost variable name -> state key
+	curPos   token.Pos
+	forced    int    // candidate forced at the next closed-world dispatch (-1: none)
+	suffix    string // appended to obligation names while a case split is active
+	loopDepth int
+	modSet   map[string][]string // own modifies set: key sort -> entry-state terms (nil map: no modifies clause)
 }
 
 type ghFact struct {
@@ -179,9 +184,16 @@ func (fx *FuncExec) recordGoodHeap(st *State, comps []string) {
 				fx.ghFacts = append(fx.ghFacts, ghFact{c, fmt.Sprintf("(forall ((r %s)) (! (or (= (select %s r) null_%s) (select %s (select %s r))) :pattern ((select %s r))))",
 					ks, cur, vs, st.vars[al], cur, cur), cur, false})
 			}
+			// a struct-VALUED field always holds its own (non-nil, allocated) sub-object
+			if fx.isStructValuedComp(c) {
+				if alo, ok := r.allocOf[ks]; ok {
+					fx.ghFacts = append(fx.ghFacts, ghFact{c, fmt.Sprintf("(forall ((r %s)) (! (=> (select %s r) (and (not (= (select %s r) null_%s)) (select %s (select %s r)))) :pattern ((select %s r))))",
+						ks, st.vars[alo], cur, vs, st.vars[r.allocOf[vs]], cur, cur), cur, false})
+				}
+			}
 			if vs == "Slice" {
-				fx.ghFacts = append(fx.ghFacts, ghFact{c, fmt.Sprintf("(forall ((r %s)) (! (and (>= (slen (select %s r)) 0) (>= (soff (select %s r)) 0) (or (= (sref (select %s r)) null_SRef) (select %s (sref (select %s r))))) :pattern ((select %s r))))",
-					ks, cur, cur, cur, st.vars["AL_SRef"], cur, cur), cur, false})
+				fx.ghFacts = append(fx.ghFacts, ghFact{c, fmt.Sprintf("(forall ((r %s)) (! (and (>= (slen (select %s r)) 0) (>= (soff (select %s r)) 0) (or (and (= (sref (select %s r)) null_SRef) (= (slen (select %s r)) 0)) (select %s (sref (select %s r))))) :pattern ((select %s r))))",
+					ks, cur, cur, cur, cur, st.vars["AL_SRef"], cur, cur), cur, false})
 			}
 		case strings.HasPrefix(c, "SE_"):
 			cs := r.compSort[c]
@@ -203,7 +215,6 @@ func (fx *FuncExec) alloc(st *State, sort, hint string) string {
 	r := fx.fresh("new_"+hint, sort)
 	st.assume(and(not(sel(fx.H(st, al), r)), not(eq(r, "null_"+sort))))
 	fx.setH(st, al, store(st.vars[al], r, "true"))
-	delete(fx.writes, al)
 	return r
 }
 
@@ -279,6 +290,7 @@ func (fx *FuncExec) copyInto(st *State, dst, src string, si *StructInfo, quiet b
 		if quiet {
 			fx.setHq(st, comp, store(fx.H(st, comp), dst, v))
 		} else {
+			fx.frameWrite(st, comp, dst, fx.curPos)
 			fx.setH(st, comp, store(fx.H(st, comp), dst, v))
 		}
 	}
@@ -366,6 +378,10 @@ func (fx *FuncExec) fieldRead(st *State, base Term, field string, fail func(stri
 	}
 	if comp, ok := si.Comp[field]; ok {
 		ft := si.FieldT[field]
+		if ft == nil {
+			_, vs := arraySorts(fx.reg.compSort[comp])
+			return Term{S: sel(fx.H(st, comp), base.S), Sort: vs}
+		}
 		return Term{S: sel(fx.H(st, comp), base.S), Sort: fx.reg.SortOf(ft), T: ft}
 	}
 	// promoted through embedded struct values
@@ -421,6 +437,7 @@ func (fx *FuncExec) oblige(st *State, kind, label, goalSMT, goalText string, pos
 	if label != "" {
 		name += "/" + label
 	}
+	name += fx.suffix
 	o := &Obligation{Name: name, Func: fx.fi.Key, Kind: kind, Label: label, Pos: fx.posStr(pos), Goal: goalText,
 		PC: append(append([]string(nil), st.pc...), st.guards...), Neg: goalSMT, Expect: "unsat", fx: fx}
 	fx.obls = append(fx.obls, o)
@@ -469,16 +486,20 @@ func (o *Obligation) Render(_ string) string {
 			}
 		}
 	}
-	for _, g := range fx.ghFacts {
-		if seen[g.fact] {
-			continue
+	for changed := true; changed; {
+		changed = false
+		for _, g := range fx.ghFacts {
+			if seen[g.fact] {
+				continue
+			}
+			if !(syms[g.key] || (g.chain && compMentioned[g.comp])) {
+				continue
+			}
+			seen[g.fact] = true
+			changed = true
+			gh.WriteString("(assert " + g.fact + ")\n")
+			symbolsOf(g.fact, syms)
 		}
-		if !(syms[g.key] || (g.chain && compMentioned[g.comp])) {
-			continue
-		}
-		seen[g.fact] = true
-		gh.WriteString("(assert " + g.fact + ")\n")
-		symbolsOf(g.fact, syms)
 	}
 	full := gh.String() + body.String()
 	var b strings.Builder
@@ -500,4 +521,89 @@ func sortedKeys(m map[string]bool) []string {
 	}
 	sort.Strings(ks)
 	return ks
+}
+
+// modTerms evaluates a contract's modifies clause in the given environment and
+// groups the designated objects by reference sort (slices by backing array).
+func (fx *FuncExec) modTerms(c *Contract, mk func() *SpecEnv) map[string][]string {
+	out := map[string][]string{}
+	for _, m := range c.Modifies {
+		t := mk().tr(m.Expr)
+		switch {
+		case t.Sort == "Slice":
+			out["SRef"] = append(out["SRef"], "(sref "+t.S+")")
+		case t.Sort == nilSort:
+		default:
+			out[t.Sort] = append(out[t.Sort], t.S)
+		}
+	}
+	return out
+}
+
+func notInSet(r string, set []string) string {
+	var ds []string
+	for _, m := range set {
+		ds = append(ds, not(eq(r, m)))
+	}
+	return and(ds...)
+}
+
+// frameFacts: after a call whose callee has a modifies clause, every object
+// that was allocated before and is not in the modifies set is unchanged in
+// the havocked components.
+func (fx *FuncExec) frameFacts(st, pre *State, comps []string, mod map[string][]string) {
+	for _, c := range comps {
+		if strings.HasPrefix(c, "AL_") || strings.HasPrefix(c, "GV_") {
+			continue
+		}
+		ks, _ := arraySorts(fx.reg.compSort[c])
+		al, ok := fx.reg.allocOf[ks]
+		if !ok {
+			continue
+		}
+		preAl := pre.vars[al]
+		if preAl == "" {
+			preAl = fx.h0(al)
+		}
+		fx.nq++
+		r := fmt.Sprintf("r!f%d", fx.nq)
+		fact := fmt.Sprintf("(forall ((%s %s)) (! (=> %s (= (select %s %s) (select %s %s))) :pattern ((select %s %s))))",
+			r, ks, and(sel(preAl, r), notInSet(r, mod[ks])), st.vars[c], r, pre.vars[c], r, st.vars[c], r)
+		fx.ghFacts = append(fx.ghFacts, ghFact{c, fact, st.vars[c], false})
+	}
+}
+
+// frameWrite: a write to object ref in component comp must target a fresh
+// object or one named in this function's modifies clause.
+func (fx *FuncExec) frameWrite(st *State, comp, ref string, pos token.Pos) {
+	if fx.modSet == nil {
+		return
+	}
+	ks, _ := arraySorts(fx.reg.compSort[comp])
+	al, ok := fx.reg.allocOf[ks]
+	if !ok {
+		return
+	}
+	entryAl := fx.entry.vars[al]
+	if entryAl == "" {
+		entryAl = fx.h0(al)
+	}
+	var ins []string
+	for _, m := range fx.modSet[ks] {
+		ins = append(ins, eq(ref, m))
+	}
+	goal := imp(sel(entryAl, ref), or(ins...))
+	fx.oblige(st, "frame-write", "", goal, "write to "+comp+" targets a fresh object or one in the modifies clause", pos)
+}
+
+// isStructValuedComp: is comp the heap component of a struct-valued (embedded by value) field?
+func (fx *FuncExec) isStructValuedComp(comp string) bool {
+	for _, si := range fx.reg.structs {
+		for _, f := range si.Fields {
+			if si.Comp[f] == comp {
+				return fx.structValInfo(si.FieldT[f]) != nil
+			}
+		}
+	}
+	return false
 }
